@@ -387,6 +387,11 @@ func runReaderCase(idx int, rng *hlib.Rand, h hostile, thorough bool) *caseOut {
 		}
 	}
 
+	// the shared-dictionary loader (racdict.Loader behind raczlib), against Model/Rac/Dict.lean
+	if len(chunks) > 0 && h.claimed <= 1<<22 && rng.Chance(1, 2) {
+		runDictLevel(rng, h, o, chunks)
+	}
+
 	// the Reader layer above the ChunkReader, against the byte-level model
 	if dsize <= readerCaseCap && rng.Chance(2, 3) && os.Getenv("C15_NO_READER") == "" {
 		d := dsize
@@ -605,7 +610,7 @@ func genCase(idx int, seed int64, thorough bool) *caseOut {
 	sel := rng.Intn(100)
 	var h hostile
 	switch {
-	case idx < 48: // every directed construction, three times, first
+	case idx < 51: // every directed construction, three times, first
 		h = directed(rng, idx)
 	case sel < 8:
 		h = directed(rng, rng.Intn(1000))
